@@ -59,8 +59,8 @@ theorem inv_step {L : Node → List RAd} {s : Net} {op : Op} (hI : Inv L s)
     intro f hf
     cases flight_step hf with
     | old h => exact hI.flight f h
-    | wdr hop ha hcidr hd hadv =>
-      intro hw; rw [hadv] at hw; simp [withdrawAdv] at hw
+    | wdr hint hop ha hcidr hd hadv =>
+      intro hw; rw [(mem_withdrawAdvs hadv).wd] at hw; cases hw
     | ann hint hop ha hd hadv =>
       intro _
       have h := mem_announceAdvs hadv
